@@ -32,6 +32,7 @@ type c16Acc struct {
 	size      uint64
 	data      []byte
 	mask      []bool
+	cwc       bool // CanWaitForCoalesce
 	msg       mem.AccessReq
 	delivered bool
 	accepted  bool
@@ -80,6 +81,13 @@ type c16Env struct {
 	badRestart bool
 	ctlDeliv   []string
 	fault      string
+	// deepening 2 (c16_deep2.go)
+	pageFlags bool              // pf=1: translation replies carry scrambled page attributes
+	lied      map[string]uint64 // "pid/vpage" -> physical page an untruthful reply (`xl`) carried
+	prevDone  map[string][]string // completed transactions at the end of the previous tick
+	nAck      int                 // acknowledgements sent through the control port
+	nCtlTaken int                 // commands taken from the control port
+	routed    bool                // the component was built with c16PageMapper providers
 }
 
 type c16Hook struct {
@@ -101,6 +109,11 @@ func (h *c16Hook) Func(ctx sim.HookCtx) {
 			n := len(e.tidNum)
 			e.tidNum[q.ID] = n
 			e.ev = append(e.ev, fmt.Sprintf("Q%d:%d:%x", n, q.PID, q.VAddr))
+			if e.routed {
+				if want := (c16PageMapper{"MMU", e.lg}).Find(q.VAddr); q.Dst != want || q.Src != e.tr.AsRemote() || q.DeviceID != 1 {
+					e.r.Failf("C16.lookup.route", e.line, "lookup %d (vaddr %x): src %s dst %s device %d, translation provider is %s", n, q.VAddr, q.Src, q.Dst, q.DeviceID, want)
+				}
+			}
 			if e.lastQ != nil {
 				e.r.Failf("C16.lookup.orphan", e.line, "translation request %d sent without accepting an access", e.tidNum[e.lastQ.ID])
 			}
@@ -108,6 +121,10 @@ func (h *c16Hook) Func(ctx sim.HookCtx) {
 		case "ctl":
 			e.ev = append(e.ev, "K")
 			e.afterK = true
+			e.nAck++
+			if cm, ok := ctx.Item.(*mem.ControlMsg); !ok || !cm.NotifyDone || cm.DiscardTransations || cm.Restart || cm.Dst != "Ctl" {
+				e.r.Failf("C16.ctl.ack-malformed", e.line, "acknowledgement #%d is not a NotifyDone message to the controller", e.nAck)
+			}
 			if len(e.ctlPending) > 0 && e.ctlPending[0] == "f" {
 				e.epoch++
 			}
@@ -127,6 +144,15 @@ func (h *c16Hook) Func(ctx sim.HookCtx) {
 			e.ev = append(e.ev, "X"+numOf(e.tidNum, rsp.RespondTo))
 		case "ctl":
 			e.ev = append(e.ev, "C")
+			e.nCtlTaken++
+			e.r.Checked("ctl")
+			if e.nAck != e.nCtlTaken {
+				e.r.Failf("C16.ctl.ack-count", e.line, "command #%d taken with %d acknowledgements sent so far", e.nCtlTaken, e.nAck)
+			}
+			if len(e.ctlPending) > 0 && e.ctlPending[0] == "s" &&
+				(e.top.PeekIncoming() != nil || e.bot.PeekIncoming() != nil || e.tr.PeekIncoming() != nil) {
+				e.r.Failf("C16.ctl.restart-leftover", e.line, "restart #%d taken with a message left in an incoming buffer", e.nCtlTaken)
+			}
 			if len(e.ctlPending) > 0 {
 				e.ctlPending = e.ctlPending[1:]
 			}
@@ -189,6 +215,13 @@ func c16PlSig(write bool, size uint64, data []byte, mask []bool) string {
 	return "w" + hexb(data) + "/" + ms
 }
 
+func c16Cwc(b bool) string {
+	if b {
+		return "c"
+	}
+	return ""
+}
+
 func (e *c16Env) onBotSend(m sim.Msg) {
 	n := len(e.bidNum)
 	e.bidNum[m.Meta().ID] = n
@@ -198,13 +231,14 @@ func (e *c16Env) onBotSend(m sim.Msg) {
 		info  interface{}
 		write bool
 	)
+	var fpid vm.PID
 	switch r := m.(type) {
 	case *mem.ReadReq:
-		addr, info = r.Address, r.Info
-		sig = c16PlSig(false, r.AccessByteSize, nil, nil)
+		addr, info, fpid = r.Address, r.Info, r.PID
+		sig = c16PlSig(false, r.AccessByteSize, nil, nil) + c16Cwc(r.CanWaitForCoalesce)
 	case *mem.WriteReq:
-		addr, info, write = r.Address, r.Info, true
-		sig = c16PlSig(true, 0, r.Data, r.DirtyMask)
+		addr, info, write, fpid = r.Address, r.Info, true, r.PID
+		sig = c16PlSig(true, 0, r.Data, r.DirtyMask) + c16Cwc(r.CanWaitForCoalesce)
 	default:
 		sig = "?"
 	}
@@ -234,9 +268,23 @@ func (e *c16Env) onBotSend(m sim.Msg) {
 	if a.epoch != e.epoch {
 		e.r.Failf("C16.flush.forward-after", e.line, "access %d accepted before flush #%d forwarded after it", idx, a.epoch+1)
 	}
+	if a.vaddr%(1<<e.lg)+uint64(max(int(a.size), len(a.data))) > 1<<e.lg {
+		e.r.Count("forward.page-straddling")
+	}
+	if e.routed {
+		e.r.Checked("route")
+		if want := (c16PageMapper{"Mem", e.lg}).Find(addr); m.Meta().Dst != want || m.Meta().Src != e.bot.AsRemote() {
+			e.r.Failf("C16.forward.route", e.line, "access %d forwarded to %x: src %s dst %s, memory provider for that address is %s", idx, addr, m.Meta().Src, m.Meta().Dst, want)
+		}
+	}
+	if fpid != 0 {
+		e.r.Failf("C16.forward.pid", e.line, "access %d: forwarded request carries PID %d, physical requests carry PID 0", idx, fpid)
+	}
 	page, found := e.pt.Find(a.pid, a.vaddr)
 	want := page.PAddr + a.vaddr%(1<<e.lg)
-	if !found || addr != want {
+	if _, lied := e.lied[fmt.Sprintf("%d/%x", a.pid, e.pageOf(a.vaddr))]; lied {
+		e.r.Count("forward.after-untruthful-reply")
+	} else if !found || addr != want {
 		other := ""
 		for pid := vm.PID(0); pid < 8; pid++ {
 			if p2, ok2 := e.pt.Find(pid, a.vaddr); ok2 && pid != a.pid && p2.PAddr+a.vaddr%(1<<e.lg) == addr {
@@ -245,8 +293,8 @@ func (e *c16Env) onBotSend(m sim.Msg) {
 		}
 		e.r.Failf("C16.forward.addr", e.line, "access %d pid %d vaddr %x: forwarded to %x, expected %x%s", idx, a.pid, a.vaddr, addr, want, other)
 	}
-	if write != a.write || sig != c16PlSig(a.write, a.size, a.data, a.mask) {
-		e.r.Failf("C16.forward.payload", e.line, "access %d: forwarded %s, original %s", idx, sig, c16PlSig(a.write, a.size, a.data, a.mask))
+	if osig := c16PlSig(a.write, a.size, a.data, a.mask) + c16Cwc(a.cwc); write != a.write || sig != osig {
+		e.r.Failf("C16.forward.payload", e.line, "access %d: forwarded %s, original %s", idx, sig, osig)
 	}
 	if !e.translated[fmt.Sprintf("%d/%x", a.pid, e.pageOf(a.vaddr))] {
 		e.r.Failf("C16.forward.untranslated", e.line, "access %d forwarded before any reply for (pid %d, page %x) was delivered", idx, a.pid, e.pageOf(a.vaddr))
@@ -306,6 +354,22 @@ func (e *c16Env) onTopSend(m sim.Msg) {
 	}
 }
 
+// c16PageMapper routes by the parity of the page number: requests to even / odd pages go to
+// different providers (second deepening: the destination of every forwarded request must be the
+// memory mapper's choice for the *translated* address, that of every lookup the translation
+// mapper's choice for the *virtual* address).
+type c16PageMapper struct {
+	prefix string
+	lg     uint64
+}
+
+func (m c16PageMapper) Find(a uint64) sim.RemotePort {
+	if m.lg >= 64 {
+		return sim.RemotePort(m.prefix + "0")
+	}
+	return sim.RemotePort(fmt.Sprintf("%s%d", m.prefix, (a>>m.lg)&1))
+}
+
 func c16MemByte(a uint64) byte { return byte((a*13 + 5) % 256) }
 
 func newC16Env(r *Run, line string, w int, lg, salt uint64) *c16Env {
@@ -320,9 +384,10 @@ func newC16Env(r *Run, line string, w int, lg, salt uint64) *c16Env {
 		WithNumReqPerCycle(w).
 		WithLog2PageSize(lg).
 		WithDeviceID(1).
-		WithMemoryProviderMapper(onePortMapper{"Mem"}).
-		WithTranslationProviderMapper(onePortMapper{"MMU"}).
+		WithMemoryProviderMapper(c16PageMapper{"Mem", lg}).
+		WithTranslationProviderMapper(c16PageMapper{"MMU", lg}).
 		Build("AT")
+	e.routed = true
 	e.top, e.bot, e.tr, e.ctl = e.comp.VerifC16Ports()
 	conn := &fakeConn{name: "c16"}
 	for k, p := range map[string]sim.Port{"top": e.top, "bot": e.bot, "tr": e.tr, "ctl": e.ctl} {
@@ -343,8 +408,54 @@ func newC16Env(r *Run, line string, w int, lg, salt uint64) *c16Env {
 	return e
 }
 
+// coalesceOracle (second deepening), evaluated on the real bookkeeping after every tick:
+// the transactions still waiting for their translation have pairwise distinct (PID, page)
+// (at_coalesce_complete); all accesses waiting in one transaction have one PID and one page
+// (at_coalesced_same_page); a completed transaction's waiting list only shrinks from the front
+// (at_done_tx_closed).
+func (e *c16Env) coalesceOracle(txs []addresstranslator.VerifC16Tx) {
+	e.r.Checked("coalesce")
+	seen := map[string]string{}
+	nowDone := map[string][]string{}
+	for _, t := range txs {
+		key := ""
+		for i, id := range t.Waiting {
+			a := e.accByID[id]
+			if a == nil {
+				continue
+			}
+			k := fmt.Sprintf("%d/%x", a.pid, e.pageOf(a.vaddr))
+			if i == 0 {
+				key = k
+			} else if k != key {
+				e.r.Failf("C16.coalesce.mixed", e.line, "transaction %s holds accesses of %s and %s", numOf(e.tidNum, t.TranslationReqID), key, k)
+			}
+		}
+		if !t.Done && key != "" {
+			if o, dup := seen[key]; dup {
+				e.r.Failf("C16.coalesce.duplicate-lookup", e.line, "lookups %s and %s both outstanding for (pid/page) %s", o, numOf(e.tidNum, t.TranslationReqID), key)
+			}
+			seen[key] = numOf(e.tidNum, t.TranslationReqID)
+		}
+		if t.Done {
+			nowDone[t.TranslationReqID] = t.Waiting
+			if old, was := e.prevDone[t.TranslationReqID]; was {
+				ok := len(t.Waiting) <= len(old)
+				for i := 0; ok && i < len(t.Waiting); i++ {
+					ok = t.Waiting[len(t.Waiting)-1-i] == old[len(old)-1-i]
+				}
+				if !ok {
+					e.r.Failf("C16.coalesce.into-done", e.line, "completed transaction %s: waiting list %d -> %d entries, not a suffix", numOf(e.tidNum, t.TranslationReqID), len(old), len(t.Waiting))
+				}
+			}
+		}
+	}
+	e.prevDone = nowDone
+}
+
 func (e *c16Env) stateSig() string {
 	fl, txs, infl := e.comp.VerifC16State()
+	e.coalesceOracle(txs)
 	ts := []string{}
 	for _, t := range txs {
 		d := 0
@@ -390,6 +501,15 @@ func (e *c16Env) drain(p sim.Port, k int, sink func(sim.Msg)) string {
 
 func (e *c16Env) answerT(q *vm.TranslationReq) bool {
 	page, _ := e.pt.Find(q.PID, q.VAddr)
+	if e.pageFlags {
+		// every attribute of the page but PAddr is scrambled: the translator must not look at them
+		n := uint64(e.tidNum[q.ID])
+		page.Valid, page.IsMigrating, page.IsPinned, page.Unified = n%2 == 0, n%3 == 0, n%5 == 1, n%2 == 1
+		page.DeviceID, page.PageSize = n%4, 1<<((n%3)+4)
+		page.VAddr += (n + 1) << e.lg
+		page.PID += vm.PID(n + 1)
+		e.r.Count("reply.scrambled-page-attributes")
+	}
 	rsp := vm.TranslationRspBuilder{}.WithSrc("MMU").WithDst(q.Src).WithRspTo(q.ID).WithPage(page).Build()
 	if err := e.tr.Deliver(rsp); err != nil {
 		return false
@@ -435,8 +555,12 @@ func (e *c16Env) op(toks []string) {
 		a.vaddr, _ = strconv.ParseUint(toks[2], 16, 64)
 		if toks[3] == "r" {
 			a.size = uint64(argN(4))
-			a.msg = mem.ReadReqBuilder{}.WithSrc("CU").WithDst(e.top.AsRemote()).WithPID(a.pid).
+			rq := mem.ReadReqBuilder{}.WithSrc("CU").WithDst(e.top.AsRemote()).WithPID(a.pid).
 				WithAddress(a.vaddr).WithByteSize(a.size).WithInfo(idx).Build()
+			if len(toks) > 5 && toks[5] == "c" {
+				a.cwc, rq.CanWaitForCoalesce = true, true
+			}
+			a.msg = rq
 		} else {
 			a.write = true
 			a.data = make([]byte, len(toks[4])/2)
@@ -449,8 +573,12 @@ func (e *c16Env) op(toks []string) {
 					a.mask = append(a.mask, ch == '1')
 				}
 			}
-			a.msg = mem.WriteReqBuilder{}.WithSrc("CU").WithDst(e.top.AsRemote()).WithPID(a.pid).
+			wq := mem.WriteReqBuilder{}.WithSrc("CU").WithDst(e.top.AsRemote()).WithPID(a.pid).
 				WithAddress(a.vaddr).WithData(a.data).WithDirtyMask(a.mask).WithInfo(idx).Build()
+			if len(toks) > 6 && toks[6] == "c" {
+				a.cwc, wq.CanWaitForCoalesce = true, true
+			}
+			a.msg = wq
 		}
 		for len(e.accs) <= idx {
 			e.accs = append(e.accs, nil)
@@ -508,6 +636,29 @@ func (e *c16Env) op(toks []string) {
 		} else {
 			e.r.Count("reply.duplicate-translation")
 		}
+		e.out = append(e.out, "ok"+numOf(e.tidNum, q.ID))
+	case "xl": // an untruthful translation service: the j-th outstanding lookup is answered with page toks[2]
+		if len(e.envT) == 0 {
+			e.out = append(e.out, "none")
+			return
+		}
+		j := argN(1) % len(e.envT)
+		q := e.envT[j]
+		pa, _ := strconv.ParseUint(toks[2], 16, 64)
+		rsp := vm.TranslationRspBuilder{}.WithSrc("MMU").WithDst(q.Src).WithRspTo(q.ID).
+			WithPage(vm.Page{PID: q.PID, VAddr: q.VAddr, PAddr: pa, PageSize: 1 << e.lg, Valid: true, DeviceID: 1}).Build()
+		if err := e.tr.Deliver(rsp); err != nil {
+			e.out = append(e.out, "full")
+			return
+		}
+		if e.lied == nil {
+			e.lied = map[string]uint64{}
+		}
+		e.lied[fmt.Sprintf("%d/%x", q.PID, q.VAddr)] = pa
+		e.translated[fmt.Sprintf("%d/%x", q.PID, q.VAddr)] = true
+		e.envT = append(e.envT[:j:j], e.envT[j+1:]...)
+		e.oldT = append(e.oldT, q)
+		e.r.Count("reply.untruthful-translation")
 		e.out = append(e.out, "ok"+numOf(e.tidNum, q.ID))
 	case "xm", "ym":
 		lst := e.envM
@@ -743,7 +894,7 @@ var c16Fixed = [][]string{
 	{"c16 w=2 lg=12 salt=16", "a 1 0 r 4", "a 2 0 r 4", "t", "dx 2", "xt 0", "t", "db 1", "a 1 3000 r 4", "a 1 3004 r 4", "t", "f", "t", "dc 1", "xt 0", "xm 0", "t", "s", "t", "dc 1", "a 2 3000 r 4", "t", "dx 4", "xt 0", "xt 0", "t", "db 4", "xm 0", "t", "du 4", "t", "yt 0", "ym 0", "t", "t"},
 }
 
-func runC16Scenario(r *Run, ops []string, closed bool, kind string) {
+func runC16Scenario(r *Run, ops []string, closed bool, kind string) *c16Env {
 	cfg := strings.Fields(ops[0])
 	w, lg, salt := 4, uint64(12), uint64(16)
 	for _, t := range cfg {
@@ -758,6 +909,7 @@ func runC16Scenario(r *Run, ops []string, closed bool, kind string) {
 	}
 	line := strings.Join(ops, " ; ")
 	e := newC16Env(r, line, w, lg, salt)
+	e.pageFlags = strings.Contains(ops[0], " pf=1")
 	for _, o := range ops[1:] {
 		if e.fault != "" {
 			break
@@ -783,6 +935,16 @@ func runC16Scenario(r *Run, ops []string, closed bool, kind string) {
 	r.CountN("accesses.accepted", e.nRecv)
 	r.CountN("accesses.forwarded", e.nFwd)
 	r.CountN("accesses.answered", e.nAns)
+	// ---- oracle: one acknowledgement per command taken; in a closed conforming run every command delivered is taken
+	if e.fault == "" {
+		r.Checked("ctl.end")
+		if e.nAck != e.nCtlTaken {
+			r.Failf("C16.ctl.ack-count", line, "%d commands taken, %d acknowledgements sent", e.nCtlTaken, e.nAck)
+		}
+		if closed && !e.badRestart && w > 0 && e.nCtlTaken != len(e.ctlDeliv) {
+			r.Failf("C16.ctl.unacknowledged", line, "%d commands delivered, %d taken and acknowledged", len(e.ctlDeliv), e.nCtlTaken)
+		}
+	}
 	// ---- oracle: nothing is lost when the environment keeps answering and draining
 	fl, txs, infl := e.comp.VerifC16State()
 	if closed && !e.badRestart && e.fault == "" && w > 0 {
@@ -809,6 +971,7 @@ func runC16Scenario(r *Run, ops []string, closed bool, kind string) {
 			}
 		}
 	}
+	return e
 }
 
 func runC16(r *Run, rng *Rng, replay string) {
